@@ -275,6 +275,7 @@ def scenario_oracle(tr):
                     bad.append(("pool:shared-checkout", "connection %d is pooled while caller %d is using it" % (c, user[c])))
                 if c in failed_conns:
                     bad.append(("pool:failed-connection-pooled", "connection %d is in the pool after a failure on it (%s)" % (c, failed_conns[c])))
+    bad.sort(key=lambda b: 0 if b[0] == "exchange:foreign-reply" else 1)  # the property's own words first
     seen = set()
     uniq = []
     for b in bad:
